@@ -222,3 +222,138 @@ silent("c12_guard_equivalent_form", "C12", [(CODEGEN, '''                body +=
                 body += f"{_IND*2}yield self.{f.name}\\n"
 ''')])
 silent("c12_flags_demorgan", "C12", [(CODEGEN, 'body += f"{_IND}if not skip_non_compare and not skip_non_init:\\n"', 'body += f"{_IND}if not (skip_non_compare or skip_non_init):\\n"')])
+
+# ---------------------------------------------------------------- C05
+_DFS_LOOP_REV = '''            children_info = list(child_info.node.get_child_nodes_with_field())
+
+            if not bottom_up:
+                children_info.reverse()
+'''
+fire("c05_no_reverse_in_loop", "C05", [(NODE, _DFS_LOOP_REV, '''            children_info = list(child_info.node.get_child_nodes_with_field())
+''')], "R-WORKLIST")
+fire("c05_dfs_fifo", "C05", [(NODE, "            child_info = build_stack.pop()\n", "            child_info = build_stack.pop(0)\n")], "R-WORKLIST")
+fire("c05_bfs_lifo", "C05", [(NODE, "            child = queue.popleft()\n", "            child = queue.pop()\n")], "R-WORKLIST")
+fire("c05_appender_swapped", "C05", [(NODE, '''        if bottom_up:
+            appender = yield_queue.appendleft
+        else:
+            appender = yield_queue.append
+''', '''        if bottom_up:
+            appender = yield_queue.append
+        else:
+            appender = yield_queue.appendleft
+''')], "R-WORKLIST")
+fire("c05_seed_not_reversed", "C05", [(NODE, '''        children_info = list(self.get_child_nodes_with_field())
+
+        if not bottom_up:
+            children_info.reverse()
+''', '''        children_info = list(self.get_child_nodes_with_field())
+''')], "R-WORKLIST")
+fire("c05_wrong_parent_in_record", "C05", [(NODE, "                build_stack.append(NodeTraversalInfo(c, child_info.node, f, i))", "                build_stack.append(NodeTraversalInfo(c, self, f, i))")], "R-WORKLIST")
+fire("c05_bfs_wrong_parent", "C05", [(NODE, '''                NodeTraversalInfo(c, child.node, f, i)
+                for c, f, i in child.node.get_child_nodes_with_field()''', '''                NodeTraversalInfo(c, child.parent, f, i)
+                for c, f, i in child.node.get_child_nodes_with_field()''')], "R-WORKLIST")
+fire("c05_prune_before_filter", "C05", [(NODE, '''            if filter is None or filter(child_info):
+                appender(child_info)
+
+            if prune and prune(child_info):
+                continue
+''', '''            if prune and prune(child_info):
+                continue
+
+            if filter is None or filter(child_info):
+                appender(child_info)
+''')], "R-CTRLDEP")
+fire("c05_filter_stops_descent", "C05", [(NODE, '''            if filter is None or filter(child):
+                yield child
+
+            if prune and prune(child):
+                continue
+''', '''            if filter is None or filter(child):
+                yield child
+            else:
+                continue
+
+            if prune and prune(child):
+                continue
+''')], "R-CTRLDEP")
+fire("c05_prune_inverted", "C05", [(NODE, '''            if prune and prune(child):
+                continue
+
+            # Walk through children''', '''            if prune and not prune(child):
+                continue
+
+            # Walk through children''')], "R-CTRLDEP")
+fire("c05_bfs_yields_parent", "C05", [(NODE, '''            if filter is None or filter(child):
+                yield child
+''', '''            if filter is None or filter(child):
+                yield child._replace(node=child.parent)
+''')], "R-CTRLDEP")
+fire("c05_sorted_children_in_bfs", "C05", [(NODE, '''                for c, f, i in child.node.get_child_nodes_with_field()
+            )''', '''                for c, f, i in child.node.get_child_nodes_with_field(sort_keys=True)
+            )''')])
+fire("c05_gather_exact_ignored", "C05", [(NODE, '''                return type(node_info.node) in obj_classes and (''', '''                return isinstance(node_info.node, obj_classes) and (''')], "R-GATHER")
+fire("c05_gather_extra_filter_or", "C05", [(NODE, '''                return isinstance(node_info.node, obj_classes) and (
+                    extra_filter is None or extra_filter(node_info)
+                )''', '''                return isinstance(node_info.node, obj_classes) or (
+                    extra_filter is None or extra_filter(node_info)
+                )''')], "R-GATHER")
+fire("c05_gather_bottom_up", "C05", [(NODE, "self.dfs(prune=prune, filter=filter_fn, bottom_up=False)", "self.dfs(prune=prune, filter=filter_fn, bottom_up=True)")], "R-GATHER")
+fire("c05_gather_drops_prune", "C05", [(NODE, "self.dfs(prune=prune, filter=filter_fn, bottom_up=False)", "self.dfs(filter=filter_fn, bottom_up=False)")], "R-GATHER")
+silent("c05_equivalent_rewrites", "C05", [(NODE, _DFS_LOOP_REV + '''
+            for c, f, i in children_info:
+                build_stack.append(NodeTraversalInfo(c, child_info.node, f, i))
+''', '''            kids = list(child_info.node.get_child_nodes_with_field())
+
+            if not bottom_up:
+                kids = list(reversed(kids))
+
+            for c, f, i in kids:
+                build_stack.append(NodeTraversalInfo(c, child_info.node, f, i))
+'''), (NODE, "        while build_stack:\n", "        while len(build_stack) > 0:\n")])
+silent("c05_prune_is_not_none", "C05", [(NODE, '''            if prune and prune(child_info):
+                continue
+''', '''            if prune is not None and prune(child_info):
+                continue
+''')])
+
+# ---------------------------------------------------------------- C01
+fire("c01_cid_drop_class", "C01", [(NODE, "        cid_data = self.__class__.__name__ + cid_data\n", "        cid_data = \"\" + cid_data\n")], "R-DIGEST-DEP")
+fire("c01_cid_child_unordered", "C01", [(NODE, '''            cid_data += f":{f.name}[{resolved_index}]="
+            cid_data += f"{c.content_id}"
+''', '''            cid_data += f":{f.name}[]="
+            cid_data += f"{c.content_id}"
+''')], "R-DIGEST-DEP")
+fire("c01_cid_fname_initial", "C01", [(NODE, '''            cid_data += f":{f.name}="
+''', '''            cid_data += f":{f.name[0]}="
+''')], "R-DIGEST-DEP")
+fire("c01_cid_truncate_val", "C01", [(NODE, '''            cid_data += f"{type(val)}({val!s})"
+''', '''            cid_data += f"{type(val)}({val!s:.32})"
+''')], "R-DIGEST-DEP")
+fire("c01_cid_truncate_val_slice", "C01", [(NODE, '''            cid_data += f"{type(val)}({val!s})"
+''', '''            cid_data += f"{type(val)}({str(val)[:64]})"
+''')], "R-DIGEST-DEP")
+fire("c01_cid_no_type_tag", "C01", [(NODE, '''            cid_data += f"{type(val)}({val!s})"
+''', '''            cid_data += f"({val!s})"
+''')], "R-DIGEST-DEP")
+fire("c01_cid_includes_origin", "C01", [(NODE, "        cid_data = self.__class__.__name__ + cid_data\n", "        cid_data = self.__class__.__name__ + self.origin.fqn + cid_data\n")], "R-DIGEST-DEP")
+fire("c01_cid_noncompare_included", "C01", [(NODE, '''            skip_content_id=True,
+            skip_non_compare=True,
+            sort_keys=True,
+        ):
+            cid_data += f":{f.name}="''', '''            skip_content_id=True,
+            skip_non_compare=False,
+            sort_keys=True,
+        ):
+            cid_data += f":{f.name}="''')], "R-DIGEST-DEP")
+fire("c01_cid_unsorted_children", "C01", [(NODE, "        for c, f, i in self.get_child_nodes_with_field(sort_keys=True):\n            resolved_index", "        for c, f, i in self.get_child_nodes_with_field():\n            resolved_index")], "R-DIGEST-DEP")
+fire("c01_cid_index_or_1", "C01", [(NODE, "            resolved_index = i or -1\n", "            resolved_index = i or 1\n")], "R-DIGEST-DEP")
+fire("c01_cid_child_id_instead", "C01", [(NODE, '''            cid_data += f"{c.content_id}"
+''', '''            cid_data += f"{c.id}"
+''')], "R-DIGEST-DEP")
+fire("c01_isequal_isinstance", "C01", [(NODE, "        if type(other) is not type(self):\n            return False\n", "        if not isinstance(other, type(self)):\n            return False\n")], "R-ISEQUAL-FORM")
+fire("c01_isequal_no_type", "C01", [(NODE, "        if type(other) is not type(self):\n            return False\n\n        return self.content_id", "        return self.content_id")], "R-ISEQUAL-FORM")
+fire("c01_second_cid_write", "C01", [(NODE, "        return new_node\n", "        object.__setattr__(new_node, \"content_id\", self.content_id)\n        return new_node\n")], "R-CID-WRITE-ONCE")
+silent("c01_equivalent_forms", "C01", [(NODE, '''            cid_data += f":{f.name}="
+            cid_data += f"{type(val)}({val!s})"
+''', '''            cid_data = cid_data + ":" + str(f.name) + "=" + f"{type(val)}" + "(" + str(val) + ")"
+'''), (NODE, "        if type(other) is not type(self):\n            return False\n", "        if not (type(self) is type(other)):\n            return False\n")])
